@@ -89,11 +89,11 @@ Definition C08_statement : Prop :=
     redefine u f d opts w t = Ok (x, r) ->
     (* an output rejected by the output filter fails Redefine, and only that gives this error *)
     (x = inr XFilterOut <->
-     match b_fout bo with Some flt => forallb (fun fld => flt_ok u flt (f_ty fld)) (fn_out f) = false | None => False end) /\
+     match b_fout bo with Some flt => forallb (fun fld => flt_okv u flt (f_name fld) (f_ty fld) (f_sub fld)) (fn_out f) = false | None => False end) /\
     (* when it succeeds: every input passes the input filter and none is keyed like a supplied value *)
     (forall ins, x = inl ins ->
        forall i, In i ins ->
-         match b_fin b with Some flt => flt_ok u flt (rfield_ty i) = true | None => True end /\
+         match b_fin b with Some flt => flt_okv u flt (rfield_name i) (rfield_ty i) EmptyString = true | None => True end /\
          match i with
          | RNamed n ty => mem (KVal n ty EmptyString) (input_vertices b) = false
          | RTyped ty => mem (KOut ty EmptyString) (input_vertices b) = false
